@@ -361,6 +361,7 @@ namespace c16
       else if(g.tsp == "L1" && g.ssp == "L2") run_matrix2<Op_, SpaceL1, SpaceL2>(op);
       else if(g.tsp == "CR" && g.ssp == "D0") { if constexpr(dim >= 2) run_matrix2<Op_, SpaceCR, SpaceD0>(op); else return false; }
       else if(g.tsp == "L2" && g.ssp == "L1") run_matrix2<Op_, SpaceL2, SpaceL1>(op);
+      else if(g.tsp == "D0" && g.ssp == "L2") run_matrix2<Op_, SpaceD0, SpaceL2>(op);
       else return false;
       return true;
     }
